@@ -25,7 +25,7 @@ func init() {
 		Plan: func(tier string) fw.Plan {
 			nSched, nRace := 160, 24
 			if tier == "thorough" {
-				nSched, nRace = 2500, 200
+				nSched, nRace = 8000, 400
 			}
 			return fw.Plan{
 				Level: "exploration",
